@@ -1,9 +1,10 @@
 -------------------------- MODULE SSHAuthServer_MC --------------------------
-(* Bounded instances of SSHAuthServer: configuration tables, request alphabets, *)
-(* and the behaviour generator for binding R (properties C32 and C33).          *)
+(* Bounded instances of SSHAuthServer (properties C32 and C33): callback-outcome  *)
+(* configurations, request alphabets (MCAt) and configuration sets.  The          *)
+(* behaviour generator for binding R is SSHAuthServer_Gen.                        *)
 EXTENDS SSHAuthServer, Json
 
-CONSTANT General      \* names of the general configurations (K...) to include in TableGeneral
+CONSTANT General      \* names of the general configurations (K...) to include in ConfigsGeneral
 
 \* ---------------------------------------------------------------- helpers
 AllU(o) == [u \in Users |-> o]
@@ -87,7 +88,6 @@ K8 == [K1 EXCEPT !.remote = "b1", !.banner = "text"]
 
 \* path-by-path variants over a core alphabet
 AP(c) == [c EXCEPT !.alpha = "core", !.depth = 3, !.allpaths = TRUE]
-TableSmall == [n \in {"K1", "K2", "K3", "K4"} |-> CASE n = "K1" -> K1 [] n = "K2" -> K2 [] n = "K3" -> K3 [] n = "K4" -> K4]
 AllNames == {"K1", "K2", "K2n", "K3", "K4", "K5", "K5b", "K6", "K6b", "K7", "K7b", "K8", "K1ap", "K2ap", "K3ap", "K4ap", "K6bap"}
 TableAll == [n \in AllNames |->
    CASE n = "K1" -> K1 [] n = "K2" -> K2 [] n = "K2n" -> K2n [] n = "K3" -> K3 [] n = "K4" -> K4 [] n = "K5" -> K5 [] n = "K5b" -> K5b
@@ -202,13 +202,8 @@ SrcCfg(remote, list, v) ==
 RECURSIVE JoinS(_)
 JoinS(l) == IF l = <<>> THEN "" ELSE IF Len(l) = 1 THEN l[1] ELSE l[1] \o "," \o JoinS(Tail(l))
 SrcName(r, l, v) == "S/" \o r \o "/" \o JoinS(l) \o (IF v THEN "/v" ELSE "")
-RECURSIVE BuildSrc(_)
-BuildSrc(D) == IF D = {} THEN <<>>
-               ELSE LET d == CHOOSE x \in D : TRUE IN (SrcName(d[1], d[2], d[3]) :> SrcCfg(d[1], d[2], d[3])) @@ BuildSrc(D \ {d})
-SrcTableR(r, lists, vs) == BuildSrc({ <<r, l, v>> : l \in lists, v \in vs })
-SrcTable(lists, vs) == SrcTableR("a1", lists, vs) @@ SrcTableR("a2", lists, vs) @@ SrcTableR("a3", lists, vs)
-                       @@ SrcTableR("b1", lists, vs) @@ SrcTableR("unix", lists, vs) @@ SrcTableR("none", lists, vs)
-TableSrcSmall == SrcTable(SrcListsSmall, {TRUE})
+SrcConfigs(lists, vs) == { [name |-> SrcName(r, l, v)] @@ SrcCfg(r, l, v) : r \in Remotes, l \in lists, v \in vs }
+ConfigsSrcSmall == SrcConfigs(SrcListsSmall, {TRUE})
 ReqSrc == { Req("none", "u1", "-", "-", "-", "-", "-"), Req("password", "u1", "good", "-", "-", "-", "-"),
             Req("kbdint", "u1", "good", "-", "-", "-", "-"),
             Query("u1", "ed1", ED, "plain"), Sign("u1", "ed1", ED, ED, "valid"), Sign("u1", "rsa1", R512, R512, "valid"),
@@ -225,7 +220,11 @@ MCAt(a, i) ==
     [] a = "cap" -> IF i < 119 THEN ReqNoFail ELSE ReqLimitsU1
     [] a = "twokeys" -> ReqTwoKeys
     [] a = "src" -> IF i = 0 THEN ReqSrc ELSE ReqSrc2
-\* general configurations restricted to the names in General; the merged tables of check C33
-TableGeneral == [n \in General |-> TableAll[n]]
-TableC33Quick == TableLimitsCore @@ TableSrcSmall @@ TableGeneral
+\* configuration sets: general configurations restricted to the names in General; the merged set of check C33 (quick)
+CfgsOf(T) == { [name |-> n] @@ T[n] : n \in DOMAIN T }
+ConfigsGeneral == { [name |-> n] @@ TableAll[n] : n \in General }
+ConfigsLimits == CfgsOf(TableLimits)
+ConfigsLimitsCore == CfgsOf(TableLimitsCore)
+ConfigsWalk == CfgsOf(TableWalk)
+ConfigsC33Quick == ConfigsLimitsCore \cup ConfigsSrcSmall \cup ConfigsGeneral
 =============================================================================
